@@ -29,9 +29,10 @@ of the code replayed on the real engine:
 -/
 import Mistral.Lemmas.SemRun
 import Mistral.Lemmas.SemNoPause
+import Mistral.Lemmas.SemNoFail
 import Mistral.Lemmas.SemWitness
 namespace Mistral.Props.C02Sem
-open Mistral Mistral.Join Mistral.Engine Mistral.Engine.Live Mistral.Sem
+open Mistral Mistral.Join Mistral.Engine Mistral.Engine.Live Mistral.Sem Mistral.Sem.Wit
 
 /-! ### histories and outcomes -/
 
@@ -40,10 +41,6 @@ def Plain (orc : String → Bool) (evs : List Event) : Prop := ∀ e ∈ evs, pl
 
 instance (orc : String → Bool) (evs : List Event) : Decidable (Plain orc evs) := by
   unfold Plain; exact inferInstance
-
-def noStaleFrom (sp : Spec) : World → List Event → Bool
-  | _, [] => true
-  | w, e :: es => !staleB w e && noStaleFrom sp (step sp w e) es
 
 /-- no stale re-start of a failed task anywhere along the history -/
 def NoStaleRestart (sp : Spec) (evs : List Event) : Prop := noStaleFrom sp init evs = true
@@ -202,6 +199,35 @@ theorem outcome_schedule_independent_nopause (sp : Spec) (rk : String → Nat) (
     SameOutcome (run sp (.start :: evs1)) (run sp (.start :: evs2)) := by
   obtain ⟨hns1, hc1⟩ := nopause_in_class sp evs1 hnp1
   exact pause_resume_same_outcome_partial sp rk hd orc evs1 evs2 hp1 hp2 hnp2 hns1 hc1 hq1 hq2
+
+/-! ### when no plain task fails the stale re-start is impossible -/
+
+/-- if no action of a task that is not a join fails (joins may fail, by their action or
+    structurally), EVERY plain history is free of stale re-starts -/
+theorem nofail_in_class (sp : Spec) (rk : String → Nat) (hsp : SpecOK sp rk) (orc : String → Bool)
+    (hok : PlainTasksSucceed sp orc) (evs : List Event) (hp : Plain orc evs) : NoStaleRestart sp evs :=
+  noStale_of_plainok sp orc rk (semSpec_of_specOK sp rk hsp) hok evs init (sinv_init sp orc) (Imp.ji_init sp) hp
+
+/-- (c) / (d) for oracles under which no plain task fails: ANY two plain quiescent histories -
+    pause / resume anywhere in both - inside WP-A's class have the same outcome.  (The stale
+    re-start is the ONLY obstacle to the full statement besides the C01 finding.) -/
+theorem outcome_schedule_independent_nofail (sp : Spec) (rk : String → Nat) (hd : DetClass sp rk)
+    (orc : String → Bool) (hok : PlainTasksSucceed sp orc) (evs1 evs2 : List Event)
+    (hp1 : Plain orc evs1) (hp2 : Plain orc evs2)
+    (hc1 : Props.C01.pausedCleanRun sp (.start :: evs1)) (hc2 : Props.C01.pausedCleanRun sp (.start :: evs2))
+    (hq1 : Quiescent (run sp (.start :: evs1))) (hq2 : Quiescent (run sp (.start :: evs2))) :
+    SameOutcome (run sp (.start :: evs1)) (run sp (.start :: evs2)) := by
+  have hp' : ∀ (evs : List Event), Plain orc evs → Plain orc (.start :: evs) := by
+    intro evs hp e he
+    rcases List.mem_cons.mp he with rfl | he
+    · rfl
+    · exact hp e he
+  exact outcome_schedule_independent_partial sp rk hd orc evs1 evs2 hp1 hp2
+    (nofail_in_class sp rk hd.ok orc hok _ (hp' evs1 hp1)) (nofail_in_class sp rk hd.ok orc hok _ (hp' evs2 hp2))
+    hc1 hc2 hq1 hq2
+
+/-- non-vacuity: under the all-success oracle no plain task of the fork / join definition fails -/
+example : PlainTasksSucceed fjSpec (fun _ => true) := fun _ _ => rfl
 
 /-! ### the statements at full strength are FALSE of the code: the stale re-start -/
 
